@@ -89,7 +89,16 @@ def generate(prop, seed):
         for si in rng.sample(range(n), k):
             streams[si]['abandon'] = {'sleep_no': rng.randint(0, 2),
                                       'frac': rng.choice([0.0, 0.25, 0.5, 0.99, 1.0])}
-    return {'mode': mode, 'R': R, 'threshold': thr, 'streams': streams,
+    # streams may be the concurrent parts of ONE transfer (they share its
+    # coordinator, as the parts of a multipart upload / ranged download do)
+    groups = list(range(len(streams)))
+    if mode in ('saturated', 'mixed', 'phase', 'recover') and len(streams) >= 2 \
+            and rng.random() < 0.4:
+        k = rng.randint(1, max(1, len(streams) // 2))
+        groups = [rng.randrange(k) for _ in streams]
+        if mode == 'recover':
+            groups[-1] = k
+    return {'groups': groups, 'mode': mode, 'R': R, 'threshold': thr, 'streams': streams,
             'overshoot': 0.0 if mode == 'paced' else rng.choice([0.0, 0.0, 0.1, 1.0, 2.0]),
             'epoch': 1000.0 if mode == 'paced' else rng.choice([1000.0, 0.0, 1.7e9]),
             'strategy': gen_strategy(rng, 200), 'sched_seed': rng.randrange(1 << 62),
@@ -305,8 +314,13 @@ def execute(sc, choices=None, lenient=False):
             sim.sleep = sleep
 
             helpers = []
+            groups = sc.get('groups') or list(range(len(sc['streams'])))
+            by_group = {}
             for si, st in enumerate(sc['streams']):
-                coord = TransferCoordinator(transfer_id=si)
+                g = groups[si]
+                if g not in by_group:
+                    by_group[g] = TransferCoordinator(transfer_id=g)
+                coord = by_group[g]
                 coords.append(coord)
                 s = limiter.get_bandwith_limited_stream(_Src(), coord)
                 streams_obj.append(s)
